@@ -6,6 +6,7 @@
 //! `shout` output there). A worker that dies is restarted by the driver; the request in flight
 //! is attributed the crash.
 
+mod front;
 mod info;
 mod prog;
 mod util;
@@ -16,6 +17,7 @@ fn main() {
     match mode {
         "prog" => prog::worker(),
         "info" => info::info(),
+        "front" => front::worker(),
         _ => {
             eprintln!("usage: vh <prog> ...");
             std::process::exit(2);
